@@ -214,7 +214,13 @@ def xmatch(
     return res[0]
 
 
-_vect_get_type_id = np.vectorize(_get_type_id, otypes=[int])
+def _vect_get_type_id(values):
+    # Not `np.vectorize`: the ufunc it caches at its first call is not
+    # picklable, and models that have been calculated could not be dumped.
+    values = np.asarray(values, object)
+    return np.array(
+        [_get_type_id(v) for v in values.ravel().tolist()], int
+    ).reshape(values.shape)
 
 
 def args_parser_match_array(val, arr, match_type=1):
